@@ -9,9 +9,10 @@
 package cram
 
 // Assumed contracts of dependencies. io.ReadFull reads into the whole buffer
-// or reports an error; it may change the state of the reader it is given.
+// or reports an error; through the reader's Read method it may change the
+// reader's sticky error field (the frame of errorReader.Read below).
 //@ trusted func ext:io.ReadFull
-//@   modifies buf[:], object(r)
+//@   modifies buf[:], object(r).err
 //@   ensures 0 <= n && n <= len(buf)
 //@   ensures err == nil <==> n == len(buf)
 //@ trusted func ext:io.Reader.Read
@@ -37,23 +38,23 @@ package cram
 //@   props C11, C20
 //@   decoder
 //@   requires r.r != nil
-//@   modifies all(r)
-//@   ensures[C20] @failzero r.err != nil && old(r.err) == nil ==> true
+//@   modifies r.err
+//@   ensures[C20] @frame r.r == old(r.r)
 
 //@ func errorReader.ltf8
 //@   mode bv
 //@   props C11, C20
 //@   decoder
 //@   requires r.r != nil
-//@   modifies all(r)
-//@   ensures[C20] @failzero r.err != nil && old(r.err) == nil ==> true
+//@   modifies r.err
+//@   ensures[C20] @frame r.r == old(r.r)
 
 //@ func errorReader.itf8slice
 //@   mode bv
 //@   props C11, C20
 //@   decoder
 //@   requires r.r != nil
-//@   modifies all(r)
+//@   modifies r.err
 //@   loop 0 invariant @idx 0 - 1 <= rangeindex && rangeindex < len(s) && fresh(s)
 //@   loop 0 decreases len(s) - rangeindex
-//@   ensures[C11] @len r.err == nil ==> len(result) >= 0
+//@   ensures[C11] @frame r.r == old(r.r)
